@@ -374,6 +374,8 @@ func exec(op string) (res string) {
 		return "bad-op"
 	}
 	switch w[0] {
+	case "dialplan", "dialsec":
+		return dialOp(w)
 	case "tls":
 		if len(w) != 7 {
 			return "bad-op"
@@ -1161,6 +1163,20 @@ func main() {
 			return "oracle/tlscred/refused"
 		})
 	}
+	// EVERY DIALER: with SslOpts, TLS on every connection the driver dials itself (caller's Dialer or its own), handed
+	// on exactly when the documented table / expected name / CAs say so; several dials through the one shared config
+	for i := 0; i < 200*mult; i++ {
+		args, kind := genDialArgs(r, true)
+		add("dialsec "+args, func(a string) string {
+			switch {
+			case strings.Contains(a, "proceeded=1") && strings.Contains(a, "proceeded=0"):
+				return "oracle/dialsec/" + kind + "/mixed"
+			case strings.Contains(a, "proceeded=1"):
+				return "oracle/dialsec/" + kind + "/all-proceed"
+			}
+			return "oracle/dialsec/" + kind + "/all-refused"
+		})
+	}
 	// setupTLSConfig: the whole finite domain of (config, EnableHostVerification) x file states
 	cfgs := []string{"nil"}
 	for _, i := range "01" {
@@ -1329,6 +1345,17 @@ func main() {
 				return "tlsx/some-rejected"
 			}
 			return "tlsx/all-accepted"
+		})
+	}
+	// the dial itself, every dialer configuration (HostDialer / Dialer / defaults x SslOpts), hosts without address
+	// or port, failing TCP dials, IPv4 / IPv6, several dials through one session: model vs code
+	for i := 0; i < 250*mult; i++ {
+		args, kind := genDialArgs(r, false)
+		add("dialplan "+args, func(a string) string {
+			if strings.HasPrefix(a, "err:") {
+				return "dialplan/" + kind + "/" + a
+			}
+			return "dialplan/" + kind
 		})
 	}
 	// the public entry point: NewSession with a scripted HostDialer
